@@ -39,6 +39,23 @@ def seeds_table():
     return "\n".join(out)
 
 
+def benign_table():
+    out = ["| refactoring | what it does (sub-agent's note, abridged) | quick checks silent | alarms |", "|---|---|---|---|"]
+    for d in sorted(glob.glob(os.path.join(root, "benign", "C*"))):
+        mp = os.path.join(d, "meta.json")
+        if not os.path.exists(mp):
+            continue
+        m = json.load(open(mp))
+        notes = ""
+        np_ = os.path.join(d, "notes.txt")
+        if os.path.exists(np_):
+            notes = " ".join(open(np_).read().split())[:150]
+        al = m.get("alarms", {})
+        out.append("| %s | %s | %d | %s |" % (os.path.basename(d), notes.replace("|", "/"), len(m.get("silent", [])),
+                                             ", ".join("%s (exit %s)" % (k, v.get("exit")) for k, v in sorted(al.items())) or "none"))
+    return "\n".join(out)
+
+
 def findings_table():
     k = json.load(open(os.path.join(root, "known_findings.json")))["findings"]
     out = ["| status | property / rule | construct (key) | what fails | repo commit |", "|---|---|---|---|---|"]
@@ -56,7 +73,7 @@ def findings_table():
 def main():
     p = os.path.join(root, "DESIGN.md")
     s = open(p).read()
-    for name, fn in (("RULES", rules_table), ("SEEDS", seeds_table), ("FINDINGS", findings_table)):
+    for name, fn in (("RULES", rules_table), ("SEEDS", seeds_table), ("FINDINGS", findings_table), ("BENIGN", benign_table)):
         b, e = "<!-- BEGIN %s -->" % name, "<!-- END %s -->" % name
         if b in s and e in s:
             s = s[:s.index(b) + len(b)] + "\n" + fn() + "\n" + s[s.index(e):]
